@@ -196,7 +196,13 @@ impl Chan {
             // two filter lengths / FFT blocks plus two calls have gone by
             let mut fed_since_switch = 0usize;
             let mut calls_since_switch = 0usize;
-            let settle = 2 * if cfg.kind.is_fft() { cfg.fft_sizes().0 } else { cfg.flen() } + 16;
+            // asynchronous types keep flen + ceil(max_relative / ratio) frames of look-back per channel (the read
+            // position may lag the newest frame by the longest permitted step) and consume chunk-wise
+            let settle = if cfg.kind.is_fft() {
+                2 * cfg.fft_sizes().0 + 16
+            } else {
+                4 * cfg.flen() + 2 * (cfg.max_rel / cfg.ratio).ceil().min(1e6) as usize + 2 * cfg.chunk + 32
+            };
             for (i, (oa, ob)) in ops_a.iter().zip(ops.iter()).enumerate() {
                 if matches!(oa, Op::Reset) && i >= switch_at {
                     // a reset re-aligns everything at once
